@@ -1020,4 +1020,8 @@ class WormWheel(HelicalGear):
         last value of each time variable (key of the dictionary) to
         corresponding list (value of the dictionary).
         """
+        if self.bending_stress_is_computable:
+            self.time_variables.setdefault('bending stress', [])
+        else:
+            self.time_variables.pop('bending stress', None)
         super().update_time_variables()
